@@ -129,7 +129,7 @@ example : isOk (runScriptAx Gen.baseAxioms [⟨"theorem", .name "conjD3", [], no
 example : isOk (runScriptAx Gen.baseAxioms
     [⟨"theorem", .name "exI", [], none⟩, ⟨"subst_type", .prim (.tyinst [("a", Ty.bool)]), [0], none⟩] []) = true := by
   simp [runScriptAx, checkStepSt, applyRuleAx, finishStep, Gen.baseAxioms, List.lookup, lookupPrems, applyRule,
-    Thm.substType, Thm.mk', Thm.addTuple, Thm.checkThmType, Gen.ax_exI, Term.substType, Ty.subst,
+    Thm.substType, Thm.mk', Thm.addTuple, Thm.checkThmTypeSig, Thm.checkThmType, Thm.sigOK, Gen.ax_exI, Term.substType, Ty.subst,
     Ty.fn, Ty.bool, Term.checkedGetType, bind, Except.bind, Ty.isFun, Ty.domain?, Ty.range?, isOk,
     sigOK, logicalKind]
 
